@@ -403,6 +403,7 @@ pub fn run_check(id: &str, tier: &str, seed: u64) -> i32 {
         "C12" | "C18" => crate::checks_pure::run_pure_check(id, tier, seed),
         "C15" | "C16" => run_prov_check(id, tier, seed),
         "C20" => run_block_check(id, tier, seed),
+        "C17" => run_driver_check(id, tier, seed),
         "C02" => fe(&[Crashy, Mixed, Reject], &["R02"], n(30_000, 1_500_000), ft),
         "C05" => fe(&[Crashy, Mixed], &["R05"], n(30_000, 1_500_000), ft),
         "C08" => fe(&[Crashy, Mixed], &["R08a", "R08c"], n(30_000, 1_500_000), ft),
@@ -698,6 +699,85 @@ pub fn run_block_check(id: &str, tier: &str, seed: u64) -> i32 {
             extra: json!({"block_level_runs": st.runs, "environment_events": st.steps, "manager_level_runs_with_passive_R20a": agg.runs, "manager_level_R20a_evaluations": agg.stats.evals.get("R20a").copied().unwrap_or(0)}),
             assumptions: vec!["getinfo replies carry the height at the instant the node evaluated the call (snapshot), delivery may be late".into(), "the first poll (plugin start-up) succeeds; a failing first poll makes the real main() exit, which is outside C20".into()],
             inconclusive: vec![],
+            exhaustive: None,
+        },
+        t0,
+    )
+}
+
+pub fn run_driver_check(id: &str, tier: &str, seed: u64) -> i32 {
+    use crate::driversim::*;
+    let t0 = Instant::now();
+    let thorough = tier == "thorough";
+    crate::checks_pure::silent_hook();
+    let runs: u64 = if thorough { 200_000 } else { 6_000 };
+    let next = AtomicU64::new(0);
+    let total = Mutex::new(DStats::default());
+    let base = mix(seed, hash_str("C17"));
+    let modes = [ChunkMode::Separators, ChunkMode::Utf8, ChunkMode::Random, ChunkMode::Whole, ChunkMode::Batched, ChunkMode::Separators, ChunkMode::Bytes];
+    std::thread::scope(|s| {
+        for _ in 0..threads() {
+            s.spawn(|| {
+                let mut st = DStats::default();
+                loop {
+                    let i = next.fetch_add(1, Ordering::Relaxed);
+                    if i >= runs {
+                        break;
+                    }
+                    let mode = if i % 50 == 49 { ChunkMode::Bytes } else { modes[(i % 6) as usize] };
+                    run_driver(mix(base, i), mode, &mut st);
+                }
+                total.lock().unwrap().merge(st);
+            });
+        }
+    });
+    let st = total.into_inner().unwrap();
+    let mut inconclusive = vec![];
+    // E2E part (real binary, logging on) is added by the e2e engine when the plugin binary is available
+    let mut extra = json!({
+        "read_chunks": st.chunks,
+        "split_offsets_relative_to_separator_covered": st.split_offsets.iter().collect::<Vec<_>>(),
+        "splits_inside_multibyte_characters": st.utf8_splits,
+        "max_in_flight": st.max_inflight,
+        "runs_with_out_of_order_completion": st.out_of_order,
+    });
+    let mut violations = st.violations.clone();
+    let mut evals: BTreeMap<String, u64> = st.evals.iter().map(|(k, v)| (k.to_string(), *v)).collect();
+    if let Ok(bin) = std::env::var("VMON_PLUGIN_BIN") {
+        match crate::e2e::wire_sessions(&bin, seed, if thorough { 400 } else { 40 }) {
+            Ok(r) => {
+                extra["e2e"] = r.coverage;
+                for (k, v) in r.violations {
+                    violations.insert(k, v);
+                }
+                for (k, v) in r.evals {
+                    *evals.entry(k).or_insert(0) += v;
+                }
+                inconclusive.extend(r.inconclusive);
+            }
+            Err(e) => inconclusive.push(format!("e2e: {e}")),
+        }
+    } else {
+        inconclusive.push("plugin binary not provided".into());
+    }
+    conclude_simple(
+        Simple {
+            id,
+            tier,
+            seed,
+            level: "exploration",
+            engine: "driver",
+            evaluations: st.runs,
+            distinct: st.traces.len() as u64,
+            evals,
+            classes: st.classes.iter().map(|(k, v)| (k.to_string(), v.len() as u64)).collect(),
+            violations,
+            samples: st.samples.iter().map(|s| json!(s)).collect(),
+            rules: vec!["R17a", "R17b", "R17c"],
+            rule_text: "valid message sequences (getmanifest, init, up to 64 concurrent hook calls and notifications, multi-byte UTF-8, numeric and string ids) cut into read chunks: every offset around each separator, inside multi-byte characters, 1-byte reads, random and batched sizes; handlers released in random order; a case is one stream+chunking+completion order; distinct = distinct (mode, separator split offsets, size) signatures",
+            extra,
+            assumptions: vec!["lightningd never puts an empty line inside a message".into(), "driver-level runs use with_logging(false); concurrent log notifications are exercised by the E2E sessions against the real binary".into()],
+            inconclusive,
             exhaustive: None,
         },
         t0,
